@@ -213,6 +213,8 @@ def run(chk, prog):
         inst = "RandomGenerator::%s is saved and restored" % m
         if m in written and m in read:
             chk.ok("X6", inst, where(rec))
+        elif m in read and c09.derived_round_trip(chk, "X6", cls, m, wfn, rfn, wi, ri, inv, nwords, inst, rec, f):
+            pass
         else:
             chk.fail("X6", inst, "%s:%s" % (where(rec).split(":")[0], f["l"]),
                      "state member %s is not part of the dump: a restored generator does not continue the sequence" % m,
